@@ -30,7 +30,7 @@ def grammar_placeholders():
     zeros = ["", "0"]
     widths = ["", "5", "1$", "w$", "0$"]
     precs = ["", ".3", ".1$", ".p$", ".*"]
-    ws = ["", " "]
+    ws = ["", " ", "\u00a0", "\u2003", "\t", " \n"]
     for a, f, s, al, z, w, p, t, sp in itertools.product(args, fills, signs, alts, zeros, widths, precs, TYPES, ws):
         spec = f + s + al + z + w + p + t
         if spec:
@@ -87,7 +87,7 @@ def gen_literals(ctx):
         parts.append(rng.choice(texts))
         lits.append("".join(parts))
     # fixed hostile seeds
-    lits += ["{0 }", "{ }", "{ 0}", "{x }", "{:? }", "{: }", "{:.*}", "{:.*}{}", "{}{:.*}{}", "{:1$.*}", "{0:.*}", "{:.*}{:.*}",
+    lits += ["{0\u00a0}", "{:\u2003}", "{x:?\u3000}", "{:>3\u00a0}", "{_0:\u000b}", "{0\u0085}", "{:x\u2028}", "{:\u00a0\u2003 }", "{0 }", "{ }", "{ 0}", "{x }", "{:? }", "{: }", "{:.*}", "{:.*}{}", "{}{:.*}{}", "{:1$.*}", "{0:.*}", "{:.*}{:.*}",
              "{18446744073709551615}", "{18446744073709551616}", "{:65535}", "{:65536}", "{:.65536}", "{:99999999999999999999}",
              "{:0$}", "{:00$}", "{:00}", "{:#0}", "{:0}", "{:+0$}", "{:x?}", "{:X?}", "{:#x?}", "{:?x}", "{:?#}", "{:xx}",
              "{:{<}", "{:}<}", "{:}}", "{:{}", "{{}", "{}}", "}{", "{{{}}}", "{{{{}}}}", "{:é<5}", "{:🦀^}", "{é}", "{_}", "{_x}", "{x_}",
